@@ -9,6 +9,8 @@ O: a precedence-climbing reference parser (mfv.exprs) re-reads the normalised st
    dumps writes the value unquoted (independent reader); re-parsing gives the same string."""
 from __future__ import annotations
 
+import os
+
 import itertools
 
 from .. import env, exprs, model, reader
@@ -91,6 +93,23 @@ def check_expr(tree, src, ctx, case, public=False):
     v2 = d2.get(ctx[1])
     if v2 != v:
         return [Discrepancy(bucket_for("fixed_point", tree, "differs"), f"not a fixed point: {v!r} -> {v2!r}", case)]
+    if case.get("reread"):
+        # the same file read twice through one Parser object (and the string API once more): the same normalised string
+        import tempfile
+
+        fn = os.path.join(tempfile.gettempdir(), "mfv_c10_%d.map" % os.getpid())
+        try:
+            with open(fn, "w", encoding="utf-8", newline="") as f:
+                f.write(text)
+            p = W.parser()
+            reads = [W.m2d().transform(p.parse_file(fn)).get(ctx[1]) for _ in range(2)] + [W.loads(text).get(ctx[1])]
+        except Exception as e:
+            return [Discrepancy(bucket_for("reread", tree, type(e).__name__), f"reading the file again raised {type(e).__name__}: {e!s:.100}", case)]
+        finally:
+            if os.path.exists(fn):
+                os.remove(fn)
+        if any(x != v for x in reads):
+            return [Discrepancy(bucket_for("reread", tree, "differs"), f"read again through the same Parser the expression is {reads!r:.300} instead of {v!r}", case)]
     return []
 
 
@@ -263,7 +282,7 @@ def search(acc: Acc, tier, shard, nshards):
             acc.cls(k2, v2)
         for lvl in lv:
             acc.cls("level:%d" % lvl)
-        return check_expr(tree, src, ctx, {"tree": tree, "src": src, "ctx": list(ctx)}, public=ch.chance(1, 200))
+        return check_expr(tree, src, ctx, {"tree": tree, "src": src, "ctx": list(ctx), "reread": ch.chance(1, 8)}, public=ch.chance(1, 200))
 
     hyp_search(acc, ID, "trees", shard, n, body, tier)
     for k, v in exprs.EXCLUDED.items():
